@@ -61,3 +61,12 @@ let () =
            | None -> L [S "error"]
            | Some r -> L [S "ok"; vsteps r]))
     | _ -> failwith "arity")
+
+let vsml (i : SmlTT.smlitem) = match i with
+  | SmlTT.IRow r -> vstrs ["row"; (if r.SmlTT.q_init then "1" else "0"); r.q_src; r.q_ev; r.q_guard; r.q_act;
+                           (match r.q_target with Some n -> n | None -> ""); (match r.q_target with Some _ -> "1" | None -> "0")]
+  | SmlTT.IEntry (s, a) -> vstrs ["entry"; s; a]
+  | SmlTT.IExit (s, a) -> vstrs ["exit"; s; a]
+
+let () =
+  register "gen_sml" (function [ee; t] -> L (List.map vsml (SmlTT.gen_sml (str ee = "1") (table_of t))) | _ -> failwith "arity")
